@@ -2,7 +2,7 @@
 # runs every seeded change against the check of its property (quick tier); prints one line per seed
 cd /verif
 export VERIF_EVIDENCE_DIR=/verif/.scratch/evidence-seeded
-for d in seeded/*/; do
+for d in seeded/C*/; do
   sid=$(basename $d); prop=${sid%%-*}
   git -C /repo diff --quiet || { echo "/repo not clean"; exit 9; }
   git -C /repo apply /verif/$d/patch.diff 2>/dev/null || { echo "$sid: PATCH DOES NOT APPLY"; continue; }
